@@ -94,10 +94,14 @@ def run_ob(args):
     out = dict(name=name, functions=ob.functions, canary=bool(ob.opts.get('canary')), note=ob.opts.get('note'))
     eps_value = 2.0 ** -52
     try:
-        loader = LD.Loader(transforms=ob.opts.get('transforms'))
+        tfs = dict(ob.opts.get('transforms') or {})
+        for modn, loops in (ob.opts.get('loops') or {}).items():
+            from . import loopcut
+            tfs[modn] = loopcut.make_transform(loops)
+        loader = LD.Loader(transforms=tfs)
         res = E.run_symbolic(ob.fn, loader, max_paths=ob.opts.get('max_paths', 64), seed=seed,
                              z3_timeout=ob.opts.get('z3_timeout', 2000), eps_value=eps_value)
-    except E.PathLimit as e:
+    except (E.PathLimit, AT.EngineGap) as e:
         out.update(status='undecided', why=str(e), wall=time.time() - t0); return out
     except Exception as e:
         out.update(status='crash', why=traceback.format_exc()[-3000:], wall=time.time() - t0); return out
